@@ -30,6 +30,14 @@ func newExampleBuilder(types map[string]internalSchema.Type) *exampleBuilder {
 	}
 }
 
+// hasUserTypesInTypesList reports whether the node's "or" rule names user types.
+// An empty object or array may carry an "or" of plain JSON types (Check makes
+// sure the example fits one of them): such a node is its own example.
+func hasUserTypesInTypesList(node internalSchema.Node) bool {
+	c, ok := node.Constraint(constraint.TypesListConstraintType).(*constraint.TypesList)
+	return ok && c.HasUserTypes()
+}
+
 func (b *exampleBuilder) Build(node internalSchema.Node) ([]byte, error) {
 	switch typedNode := node.(type) {
 	case *internalSchema.ObjectNode:
@@ -50,7 +58,7 @@ func (b *exampleBuilder) Build(node internalSchema.Node) ([]byte, error) {
 }
 
 func (b *exampleBuilder) buildExampleForObjectNode(node *internalSchema.ObjectNode) ([]byte, error) {
-	if node.Constraint(constraint.TypesListConstraintType) != nil {
+	if hasUserTypesInTypesList(node) {
 		return nil, errors.ErrUserTypeFound
 	}
 
@@ -128,7 +136,7 @@ func escapeJSONString(s string) []byte {
 }
 
 func (b *exampleBuilder) buildExampleForArrayNode(node *internalSchema.ArrayNode) ([]byte, error) {
-	if node.Constraint(constraint.TypesListConstraintType) != nil {
+	if hasUserTypesInTypesList(node) {
 		return nil, errors.ErrUserTypeFound
 	}
 
@@ -212,7 +220,7 @@ func buildExampleForObjectNode(
 	node *internalSchema.ObjectNode,
 	types map[string]internalSchema.Type,
 ) ([]byte, error) {
-	if node.Constraint(constraint.TypesListConstraintType) != nil {
+	if hasUserTypesInTypesList(node) {
 		return nil, errors.ErrUserTypeFound
 	}
 
@@ -246,7 +254,7 @@ func buildExampleForArrayNode(
 	node *internalSchema.ArrayNode,
 	types map[string]internalSchema.Type,
 ) ([]byte, error) {
-	if node.Constraint(constraint.TypesListConstraintType) != nil {
+	if hasUserTypesInTypesList(node) {
 		return nil, errors.ErrUserTypeFound
 	}
 
